@@ -19,3 +19,10 @@ PROP = {
         "the second-connection theorem is about one listener generation of the acceptor model; its tie is the scripted scenario (harness-owned listener)",
     ],
 }
+
+
+MANIFEST = {
+    "text": "Coq theorems over ALL finite frame sequences, all configurations (role, session id, validation on/off, equipment/host) and all counter values: the responder model (which follows dispatchFrame, the control procedures, the active Select procedure and checkSessionID/RouteReply branch by branch) equals the SEMI E37 table written independently from the property statement, frame by frame (outputs byte for byte, link effect, selected state); one lemma per table row; the link ends only on Separate-while-Selected or when the peer refuses this side's own Select; the four Reject classes never disconnect or move state; a passive acceptor refuses every connection after the first without changing the live session's outputs. IsValidSType and the status/reason/SType constants are regenerated from the source and bridged. The model is compared exactly with a real connection over net.Pipe (stepwise with Linktest barriers, and pipelined bursts).",
+    "note": 'Atomicity: one frame per step; a transaction closes when its response is routed (probe-fenced). Quiet link (no auto-linktest, long T3/T6/T7): timer-driven endings and local data transactions are outside this model (C06/C19). Two readings adopted and listed in the evidence: transaction identity by system bytes; an S9F1 queued behind a pipelined Deselect may be dropped by the send gate (C07).',
+    "technique": 'Rocq/Coq proof (refinement of a code-shaped fold to a table spec, induction over frame lists) + translator bridge + exact extracted-model differential on a real connection + independent table oracle',
+}
